@@ -243,7 +243,10 @@ func runC05(c *Check) {
 	c.Assump = []string{"Node 22 (V8) executes the original natively", "microtask-turn counts are not observed (each async case is awaited to completion, log compared per case)", "ES5 targets, decorators and `using` are outside this check (no native reference available for using in Node 22)", "function/class .name of lowered anonymous classes is not observed"}
 	pool := NewNodePool("22")
 	defer pool.Close()
-	x := &xrunner{c: c, cfgs: c05Cfgs(), pool: pool, calls: xCallsStd, noNames: true, fresh: true, quiet: true, classify2: c05Classify}
+	x := &xrunner{c: c, cfgs: c05Cfgs(), pool: pool, calls: xCallsStd, noNames: true, fresh: true, quiet: true, classify2: c05Classify,
+		// a program that returns a copy of the sloppy-mode global object (`{...this}` in a nested plain function) would
+		// observe esbuild's top-level helper variables, which scripts legitimately add to the global object
+		skipObs: func(ref string) bool { return strings.Contains(ref, `"globalThis":inst{"Object"`) }}
 	all := concatOps(xAllOps, xAsyncGen, xGen)
 	red := pickOps(all, xReducedNames...)
 	lowerOps := pickOps(all, "$0?.x", "$0?.[$1]", "$0?.($1)", "$0?.x($1)", "$0?.x.y", "($0?.x).y", "($0?.x)($1)", "$0.x?.($1)", "$0?.x[$1]?.y", "delete $0?.x", "$0 ?? $1", "$0 ** $1", "#0 **= $0", "#0 &&= $0", "#0 ||= $0", "#0 ??= $0",
@@ -271,7 +274,14 @@ func runC05(c *Check) {
 // mismatch stays an ordinary violation.
 var c05RestTargetProbe = regexp.MustCompile(`\{\.\.\.\(?[a-zA-Z]+[.\[?]`)
 
+var c05SpreadOfPatternAssign = regexp.MustCompile(`\.\.\.\(\s*[\[{][^=]*[\]}] = `)
+
 func c05Classify(exp, got, input string) []string {
+	if strings.HasPrefix(got, "eval-throw:SyntaxError") && !strings.HasPrefix(exp, "eval-throw") && c05SpreadOfPatternAssign.MatchString(input) {
+		// `{x: 1, ...({x: a} = b)}` lowered to `__spreadValues({ x: 1 }, { x: a } = b)`: valid ECMAScript, but every V8
+		// rejects a destructuring assignment argument that follows an object literal argument
+		return []string{"lowered-object-spread-passes-destructuring-assignment-argument-that-v8-rejects"}
+	}
 	el, gl := strings.Split(exp, "\n"), strings.Split(got, "\n")
 	if len(el) != len(gl) {
 		return nil
@@ -289,7 +299,7 @@ func c05Classify(exp, got, input string) []string {
 		switch {
 		case c05RestTargetProbe.MatchString(input):
 			keys["lowered-rest-assignment-target-evaluated-before-right-hand-side"] = true
-		case strings.Contains(input, "function(x = ") && strings.Contains(input, "?.") && gres == "throw=ReferenceError":
+		case strings.Contains(input, "(x = ") && strings.Contains(input, "?.") && gres == "throw=ReferenceError":
 			keys["lowered-optional-chain-in-default-parameter-references-out-of-scope-temporary"] = true
 		case strings.Contains(input, "async (") && strings.Contains(input, "new.target") && strings.HasSuffix(eres, "ret=true") && strings.HasSuffix(gres, "ret=false"):
 			keys["lowered-async-arrow-loses-new-target"] = true
@@ -297,6 +307,12 @@ func c05Classify(exp, got, input string) []string {
 			keys["lowered-async-arrow-super-access-receives-no-this"] = true
 		case strings.Contains(input, "new.target") && strings.Contains(input, "class"):
 			keys["lowered-class-field-initializer-sees-constructor-new-target"] = true
+		case strings.Contains(input, "class") && strings.Contains(input, "static") && strings.Contains(input, "[this,") && c05OnlyThisDiffers(el[i], gl[i]):
+			// (any static initializer or static block: the call `.call(3)` of a sloppy function boxes its this value)
+			keys["lowered-static-field-initializer-loses-strict-mode"] = true
+		case strings.Contains(input, "class { static x = ") && strings.Contains(input, "delete ") && elog == glog && eres == "throw=TypeError" && gres == "ret=false":
+			// (`delete` of a non-configurable property throws only in strict code)
+			keys["lowered-static-field-initializer-loses-strict-mode"] = true
 		case strings.Contains(input, "class { static x = ") && strings.Contains(input, "[this,"):
 			keys["lowered-static-field-initializer-loses-strict-mode"] = true
 		case strings.Contains(input, "for (this.#x of"):
@@ -306,6 +322,12 @@ func c05Classify(exp, got, input string) []string {
 		case strings.Contains(input, "class") && strings.Contains(input, "[") && strings.HasPrefix(eres, "throw=") && eres == gres && strings.HasPrefix(normHints(elog), normHints(glog)):
 			keys["lowered-class-computed-field-key-converted-after-initializer"] = true
 		case strings.Contains(input, "async") && eres == "throw=TypeError" && !strings.HasPrefix(gres, "throw="):
+			keys["lowered-async-function-is-constructible"] = true
+		case strings.Contains(input, "new (async function") && eres == "throw=TypeError" && strings.HasPrefix(glog, elog) && len(glog) > len(elog):
+			// the construction succeeded (the body ran), a later step threw
+			keys["lowered-async-function-is-constructible"] = true
+		case strings.Contains(input, "async") && elog == glog && strings.ReplaceAll(eres, "inst[object AsyncFunction]", "inst") == gres:
+			// the same ordinary function observed through its [[Prototype]] chain (Symbol.toStringTag of AsyncFunction.prototype)
 			keys["lowered-async-function-is-constructible"] = true
 		case strings.Contains(input, "...") && eres == "throw=TypeError" && strings.HasPrefix(gres, "throw=") && strings.HasPrefix(glog, elog):
 			keys["lowered-object-rest-of-null-or-undefined-does-not-throw"] = true
@@ -320,7 +342,13 @@ func c05Classify(exp, got, input string) []string {
 		case c05RestTargetProbe.MatchString(input):
 			keys["lowered-rest-assignment-target-evaluated-before-right-hand-side"] = true
 		default:
-			return nil
+			ks := c05Explain(elog, eres, glog, gres, input)
+			if ks == nil {
+				return nil
+			}
+			for _, k := range ks {
+				keys[k] = true
+			}
 		}
 	}
 	var out []string
@@ -329,6 +357,140 @@ func c05Classify(exp, got, input string) []string {
 	}
 	sort.Strings(out)
 	return out
+}
+
+// c05Explain handles lines in which several recorded deviations overlap (thorough-tier trees): the log is split into
+// ToPrimitive conversion tokens and all other tokens; each part must be explained by a recorded finding whose
+// syntactic precondition holds for the input, otherwise the mismatch stays an ordinary violation.
+func c05Explain(elog, eres, glog, gres, input string) []string {
+	split := func(log string) (rest, conv, all []string) {
+		for _, t := range strings.Split(log, ",") {
+			if t == "" {
+				continue
+			}
+			if strings.Contains(t, ":prim:") {
+				t = normHints(t)
+				conv = append(conv, t)
+			} else {
+				rest = append(rest, t)
+			}
+			all = append(all, t)
+		}
+		return
+	}
+	isPrefix := func(a, b []string) bool { // a is a prefix of b
+		if len(a) > len(b) {
+			return false
+		}
+		for i := range a {
+			if a[i] != b[i] {
+				return false
+			}
+		}
+		return true
+	}
+	E, CE, AE := split(elog)
+	G, CG, AG := split(glog)
+	classKey := strings.Contains(input, "class") && strings.Contains(input, "[")
+	restKey := strings.Contains(input, "...") && strings.Contains(input, "[")
+	var keys []string
+	truncated := false
+	switch {
+	case len(E) == len(G) && isPrefix(E, G) && eres == gres:
+		// only the conversions differ
+	case strings.Contains(input, "?.") && strings.HasPrefix(eres, "throw=") && gres == "throw=TypeError" && isPrefix(G, E) && len(G) < len(E):
+		keys = append(keys, "lowered-optional-chain-callee-throws-before-arguments-are-evaluated")
+		truncated = true
+	case classKey && eres == gres && strings.HasPrefix(eres, "throw=") && isPrefix(E, G) && len(E) < len(G) && len(CG) <= len(CE):
+		// the key conversion that throws natively at class definition time happens after the initializers when lowered
+		return []string{"lowered-class-computed-field-key-converted-after-initializer"}
+	default:
+		return nil
+	}
+	count := func(l []string) map[string]int {
+		m := map[string]int{}
+		for _, t := range l {
+			m[t]++
+		}
+		return m
+	}
+	ce, cg := count(CE), count(CG)
+	missing, extra, extraIsDuplicate := 0, 0, true
+	for t, n := range ce {
+		if cg[t] < n {
+			missing += n - cg[t]
+		}
+	}
+	for t, n := range cg {
+		if n > ce[t] {
+			extra += n - ce[t]
+			if ce[t] == 0 {
+				extraIsDuplicate = false
+			}
+		}
+	}
+	switch {
+	case missing == 0 && extra == 0:
+		sameOrder := isPrefix(AG, AE) && (truncated || len(AG) == len(AE))
+		rawConv := func(log string) (r []string) {
+			for _, t := range strings.Split(log, ",") {
+				if strings.Contains(t, ":prim:") {
+					r = append(r, t)
+				}
+			}
+			sort.Strings(r)
+			return
+		}
+		hintsDiffer := strings.Join(rawConv(elog), ",") != strings.Join(rawConv(glog), ",")
+		if !sameOrder || hintsDiffer {
+			if !sameOrder && !classKey {
+				return nil
+			}
+			if classKey {
+				keys = append(keys, "lowered-class-computed-field-key-converted-after-initializer")
+			} else if eres == gres && sameOrder {
+				keys = append(keys, "unused-computed-key-toprimitive-hint")
+			} else {
+				return nil
+			}
+		}
+	case extra == 0 && missing > 0 && classKey && strings.HasPrefix(gres, "throw="):
+		// the conversion of the class member key comes after the initializer, which threw first
+		keys = append(keys, "lowered-class-computed-field-key-converted-after-initializer")
+	case missing == 0 && extra > 0 && extraIsDuplicate && restKey:
+		keys = append(keys, "lowered-object-rest-converts-computed-key-twice")
+	default:
+		return nil
+	}
+	if len(keys) == 0 {
+		return nil
+	}
+	return keys
+}
+
+// c05OnlyThisDiffers: the two observation lines are identical except for the first element of one array, which is a
+// primitive (strict `this`) in the expected line and an object (boxed primitive or the global object) in the other
+func c05OnlyThisDiffers(e, g string) bool {
+	p := 0
+	for p < len(e) && p < len(g) && e[p] == g[p] {
+		p++
+	}
+	q := 0
+	for q < len(e)-p && q < len(g)-p && e[len(e)-1-q] == g[len(g)-1-q] {
+		q++
+	}
+	if p == 0 || e[p-1] != '[' {
+		return false
+	}
+	te, tg := e[p:len(e)-q], g[p:len(g)-q]
+	// the common suffix may have swallowed the separator
+	if !strings.HasPrefix(e[len(e)-q:], ",") && !strings.HasSuffix(te, ",") {
+		if i := strings.Index(e[len(e)-q:], ","); i < 0 {
+			return false
+		}
+	}
+	prim := regexp.MustCompile(`^(n:-?[0-9.]+|undefined|null|true|false|"[^"]*")`)
+	return prim.MatchString(te) && strings.HasPrefix(tg, "inst")
 }
 
 func normHints(s string) string {
